@@ -13,5 +13,5 @@ git -C "$WT" apply "$P" || { echo "apply failed"; exit 2; }
 mkdir -p "$VT"; rsync -a --exclude work --exclude .git --exclude evidence /verif/ "$VT/"; mkdir -p "$VT/evidence"
 for c in "$@"; do
   echo "== $c"
-  (cd "$VT" && VERIF_REPO="$WT" ./check "$c" 2>&1 | grep -E "VIOLATION|KNOWN|broken|internal|crash" | sed "s#$VT#/verif#g" | head -5)
+  (cd "$VT" && VERIF_REPO="$WT" ./check "$c" 2>&1 | grep -E "VIOLATION|KNOWN|broken|internal|crash|Error|error|Traceback|File " | sed "s#$VT#/verif#g" | head -30)
 done
